@@ -1,7 +1,10 @@
-(* C01, statement layer.  Statements only; proofs in Proofs/TranslP.v, Proofs/SkeletonP.v. *)
+(* C01, statement layer.  Statements only; proofs in Proofs/SkeletonP.v (skeleton, break guard)
+   and Proofs/SimP.v, Proofs/TranslSimpleP.v, Proofs/SimTopP.v, Proofs/SimDemoP.v (simulation). *)
 From Coq Require Import ZArith QArith List Bool.
-From RV Require Import Base.Wire Base.Text Lang.StmtAst Lang.Transl Lang.StmtSem Lang.StmtGuard.
-From RV Require Import Proofs.SkeletonP.
+From RV Require Import Base.Wire Base.Text Lang.StmtAst Lang.Transl Lang.StmtSem Lang.StmtGuard
+  Lang.SemFacts Lang.StmtDemo.
+From RV Require Import Lang.StmtSimple.
+From RV Require Import Proofs.SkeletonP Proofs.SimTopP Proofs.SimDemoP Proofs.TranslAcceptP Proofs.SimAcceptP.
 Import ListNotations.
 Open Scope Z_scope.
 
@@ -20,3 +23,134 @@ Theorem C01_break_guard : forall pre body rest,
   (forall c e, transl {| p_pre := pre; p_main := Some (body ++ [PIf c [PBreak] [] e]) |} = None).
 Proof. exact break_guard. Qed.
 Print Assumptions C01_break_guard.
+
+(* Statement-level SIMULATION (reject-or-preserve, statement layer).  For every program that
+   [transl] accepts and that lies inside the executable guard [guard_ok]
+     - every variable is first assigned at top level of the setup part (so it is a C global), or at
+       top level of the `while True:` body before any read of it in that body (so it is a local of
+       loop() that every pass assigns before using it),
+     - every later assignment / augmented assignment keeps the type label of the first one,
+     - tuple assignment only as the declaration `x1, ..., xn = e1, ..., en` of n distinct NEW names at top
+       level of the setup part (plain global declarations; no swap, no temporaries),
+     - range() bounds are int-labelled, do not read the loop variable nor any name the loop
+       body assigns, loop variables are fresh, never assigned, and read only inside their loop,
+     - expression ids identify annotations consistently,
+   and for every expression semantics [sem]/[augsem] shared by both sides that satisfies
+   [sem_facts] (the type label of an expression is the type of its value: the interface to the
+   expression layer, units C01_expr / C02): whenever the Python execution (top-level statements,
+   then n passes of the `while True:` body) terminates with trace tr, the C execution of the
+   translated program (dynamic initialisation of the globals, setup(), n calls of loop()) produces
+   the same trace tr, for every sufficiently large C fuel.  Python runs that are not well defined
+   (unbound name, failing expression) or exhaust their fuel are excluded by the hypothesis. *)
+Theorem C01_stmt_preserve_partial :
+  forall sem augsem p c,
+    transl p = Some c -> guard_ok p = true -> sem_facts sem augsem p ->
+    forall fuel n tr, pprog_exec sem augsem fuel n p = Some tr ->
+    exists F, forall F', (F <= F')%nat ->
+      cprog_exec sem augsem (info_of p) F' n (match p_main p with Some _ => true | None => false end) c = Some tr.
+Proof. exact stmt_preserve_partial. Qed.
+Print Assumptions C01_stmt_preserve_partial.
+
+(* Inside the guard the only reason for rejection is a misplaced `break` ([breaks_ok]: every `break`
+   is inside a for/while loop and not directly at the level of the main loop): the parser model
+   accepts every other guarded program ... *)
+Theorem C01_stmt_guard_accepts :
+  forall p, guard_ok p = true -> breaks_ok p = true -> exists c, transl p = Some c.
+Proof. exact guard_accepts. Qed.
+Print Assumptions C01_stmt_guard_accepts.
+
+(* ... so that inside the guard "reject-or-preserve" is "accept and preserve". *)
+Theorem C01_stmt_accept_and_preserve_partial :
+  forall sem augsem p,
+    guard_ok p = true -> breaks_ok p = true -> sem_facts sem augsem p ->
+    exists c, transl p = Some c /\
+      forall fuel n tr, pprog_exec sem augsem fuel n p = Some tr ->
+      exists F, forall F', (F <= F')%nat ->
+        cprog_exec sem augsem (info_of p) F' n (match p_main p with Some _ => true | None => false end) c = Some tr.
+Proof. exact accept_and_preserve. Qed.
+Print Assumptions C01_stmt_accept_and_preserve_partial.
+
+Example C01_stmt_accept_nonvacuous :
+  guard_ok demo = true /\ breaks_ok demo = true /\ sem_facts demo_sem demo_aug demo.
+Proof. exact demo_breaks_ok. Qed.
+Print Assumptions C01_stmt_accept_nonvacuous.
+
+(* The hypotheses are satisfiable by a non-trivial program (constant and run-time globals, a for
+   loop, if/else with an augmented assignment, 4 passes of the main loop, 8 trace events), and
+   on it both executions compute the stated trace. *)
+Example C01_stmt_preserve_nonvacuous :
+  guard_ok demo = true /\ sem_facts demo_sem demo_aug demo /\
+  pprog_exec demo_sem demo_aug 30 4 demo = Some demo_trace /\
+  exists c, transl demo = Some c /\
+            cprog_exec demo_sem demo_aug (info_of demo) 30 4 true c = Some demo_trace.
+Proof. exact demo_ok. Qed.
+Print Assumptions C01_stmt_preserve_nonvacuous.
+
+(* ... and by a program whose main loop declares a local (first assignment at body level). *)
+Example C01_stmt_preserve_nonvacuous_local :
+  guard_ok demo_local = true /\ sem_facts demo_local_sem demo_aug demo_local /\
+  pprog_exec demo_local_sem demo_aug 30 3 demo_local = Some demo_local_trace /\
+  exists c, transl demo_local = Some c /\
+            cprog_exec demo_local_sem demo_aug (info_of demo_local) 30 3 true c = Some demo_local_trace.
+Proof. exact demo_local_ok. Qed.
+Print Assumptions C01_stmt_preserve_nonvacuous_local.
+
+(* ... and by a program with tuple declarations of new globals that read a re-assigned variable. *)
+Example C01_stmt_preserve_nonvacuous_tuple :
+  guard_ok demo_tuple = true /\ sem_facts demo_tuple_sem demo_aug demo_tuple /\
+  pprog_exec demo_tuple_sem demo_aug 30 0 demo_tuple = Some demo_tuple_trace /\
+  exists c, transl demo_tuple = Some c /\
+            cprog_exec demo_tuple_sem demo_aug (info_of demo_tuple) 30 0 false c = Some demo_tuple_trace.
+Proof. exact demo_tuple_ok. Qed.
+Print Assumptions C01_stmt_preserve_nonvacuous_tuple.
+
+(* The guard clause on range() bounds is necessary: `n = 3; for i in range(n): n = n - 1;
+   mon.write(i)` is accepted, Python writes 0 1 2, the C for-loop (bound re-evaluated before
+   every iteration) writes 0 1.  Finding F-C01-range-bound-reeval. *)
+Theorem C01_stmt_range_bound_refuted :
+  exists c trP trC,
+    transl reeval = Some c /\ sem_facts reeval_sem demo_aug reeval /\
+    pprog_exec reeval_sem demo_aug 20 0 reeval = Some trP /\
+    cprog_exec reeval_sem demo_aug (info_of reeval) 20 0 false c = Some trC /\
+    trP <> trC /\ guard_ok reeval = false.
+Proof. exact reeval_refuted. Qed.
+Print Assumptions C01_stmt_range_bound_refuted.
+
+(* The guard clause on stable types is necessary: `x = 1; x = 2.5; mon.write(x)` is accepted,
+   the C variable keeps the type of its first assignment (int), so the device prints 2 where
+   Python prints 2.5.  Finding F-C01-retype-truncates. *)
+Theorem C01_stmt_retype_refuted :
+  exists c trP trC,
+    transl retype = Some c /\ sem_facts retype_sem demo_aug retype /\
+    pprog_exec retype_sem demo_aug 20 0 retype = Some trP /\
+    cprog_exec retype_sem demo_aug (info_of retype) 20 0 false c = Some trC /\
+    trP <> trC /\ guard_ok retype = false.
+Proof. exact retype_refuted. Qed.
+Print Assumptions C01_stmt_retype_refuted.
+
+(* Hoisting ("promotion") out of nested blocks is not semantics-preserving: a name first assigned
+   inside a loop nested in another loop is hoisted twice, and the inner hoisted declaration is
+   rewritten to `z = 0;`, which the outer loop executes again on every iteration.
+   `w = 0; while w < 2: (for k in range(1 - w): z = 5); w = w + 1` then `mon.write(z)`:
+   Python writes 5, the device writes 0.  Finding F-C01-hoisted-decl-reinit. *)
+Theorem C01_stmt_promotion_reinit_refuted :
+  exists c trP trC,
+    transl reinit = Some c /\ sem_facts reinit_sem demo_aug reinit /\
+    pprog_exec reinit_sem demo_aug 20 0 reinit = Some trP /\
+    cprog_exec reinit_sem demo_aug (info_of reinit) 20 0 false c = Some trC /\
+    trP <> trC /\ guard_ok reinit = false.
+Proof. exact reinit_refuted. Qed.
+Print Assumptions C01_stmt_promotion_reinit_refuted.
+
+(* A name first assigned inside `while True:` is a local of loop() and is declared (hoisted:
+   with its default value) again on every pass, while Python keeps its value from the previous pass:
+   `w = 0; while True: (if w == 0: z = 5); w = w + 1; mon.write(z)` writes 5 5 in Python and
+   5 0 on the device.  Finding F-C01-loop-local-reinit. *)
+Theorem C01_stmt_loop_local_reinit_refuted :
+  exists c trP trC,
+    transl looplocal = Some c /\ sem_facts looplocal_sem demo_aug looplocal /\
+    pprog_exec looplocal_sem demo_aug 20 2 looplocal = Some trP /\
+    cprog_exec looplocal_sem demo_aug (info_of looplocal) 20 2 true c = Some trC /\
+    trP <> trC /\ guard_ok looplocal = false.
+Proof. exact looplocal_refuted. Qed.
+Print Assumptions C01_stmt_loop_local_reinit_refuted.
